@@ -8,6 +8,7 @@ import (
 
 	"golang.org/x/tools/go/ssa"
 
+	"manticheck/internal/codec"
 	"manticheck/internal/load"
 )
 
@@ -174,33 +175,86 @@ func (bv *c08BranchView) leaves(v ssa.Value) []ssa.Value {
 
 // bits computes which bits of integer value v are known (0 or 1) under the view.
 func (bv *c08BranchView) bits(v ssa.Value) (zeros, ones uint64) {
-	return bv.bits1(v, map[ssa.Value]bool{})
+	return (&c08BitsEval{root: bv}).bits(v, nil, map[ssa.Value]bool{}, 0)
 }
 
-func (bv *c08BranchView) bits1(v ssa.Value, busy map[ssa.Value]bool) (zeros, ones uint64) {
+// c08BitsEval evaluates known bits across inlined helpers: a call of an
+// in-module function is the join of its returns on the paths that the
+// character-set test (evaluated in the callee's activation) leaves alive.
+type c08BitsEval struct {
+	root     *c08BranchView
+	test     func(cond ssa.Value, fr *codec.Frame) (match, truth bool) // nil: helpers are opaque
+	inModule func(*ssa.Function) bool
+	views    map[*codec.Frame]*c08BranchView
+}
+
+func (be *c08BitsEval) view(fr *codec.Frame) *c08BranchView {
+	if fr == nil {
+		return be.root
+	}
+	if v, ok := be.views[fr]; ok {
+		return v
+	}
+	if be.views == nil {
+		be.views = map[*codec.Frame]*c08BranchView{}
+	}
+	v := c08NewBranchView(fr.Callee, func(cond ssa.Value) (bool, bool) { return be.test(cond, fr) })
+	be.views[fr] = v
+	return v
+}
+
+func (be *c08BitsEval) bits(v ssa.Value, fr *codec.Frame, busy map[ssa.Value]bool, depth int) (zeros, ones uint64) {
 	if busy[v] {
 		return 0, 0
 	}
 	busy[v] = true
 	defer delete(busy, v)
+	bv := be.view(fr)
 	switch x := v.(type) {
 	case *ssa.Const:
 		if k, ok := c08ConstInt(x); ok && k.Sign() >= 0 && k.IsUint64() {
 			return ^k.Uint64(), k.Uint64()
 		}
+	case *ssa.Parameter:
+		if arg, pf, ok := fr.Bind(x); ok {
+			return be.bits(arg, pf, map[ssa.Value]bool{}, depth)
+		}
+	case *ssa.Call:
+		f := x.Common().StaticCallee()
+		if be.test == nil || f == nil || f.Blocks == nil || be.inModule == nil || !be.inModule(f) || depth >= 2 || f.Signature.Results().Len() != 1 {
+			break
+		}
+		fr2 := &codec.Frame{Call: x, Callee: f, Parent: fr}
+		hv := be.view(fr2)
+		zeros, ones = ^uint64(0), ^uint64(0)
+		n := 0
+		for _, b := range f.Blocks {
+			ret, ok := b.Instrs[len(b.Instrs)-1].(*ssa.Return)
+			if !ok || !hv.live[b] {
+				continue
+			}
+			z, o := be.bits(ret.Results[0], fr2, map[ssa.Value]bool{}, depth+1)
+			zeros &= z
+			ones &= o
+			n++
+		}
+		if n == 0 {
+			return 0, 0
+		}
+		return zeros, ones
 	case *ssa.Convert:
 		if c08IsInt(x.X.Type()) && c08IsInt(x.Type()) {
 			sb, _ := x.X.Type().Underlying().(*types.Basic)
 			db, _ := x.Type().Underlying().(*types.Basic)
 			if sb.Info()&types.IsUnsigned != 0 && c08Bits(db) >= c08Bits(sb) {
-				return bv.bits1(x.X, busy)
+				return be.bits(x.X, fr, busy, depth)
 			}
 		}
 	case *ssa.ChangeType:
-		return bv.bits1(x.X, busy)
+		return be.bits(x.X, fr, busy, depth)
 	case *ssa.BinOp:
-		az, ao := bv.bits1(x.X, busy)
-		bz, bo := bv.bits1(x.Y, busy)
+		az, ao := be.bits(x.X, fr, busy, depth)
+		bz, bo := be.bits(x.Y, fr, busy, depth)
 		switch x.Op {
 		case token.OR:
 			return az & bz, ao | bo
@@ -216,7 +270,7 @@ func (bv *c08BranchView) bits1(v ssa.Value, busy map[ssa.Value]bool) (zeros, one
 			if !bv.edgeLive(x.Block().Preds[i], x.Block()) {
 				continue
 			}
-			z, o := bv.bits1(e, busy)
+			z, o := be.bits(e, fr, busy, depth)
 			zeros &= z
 			ones &= o
 			n++
